@@ -419,6 +419,11 @@ def reuse_scenarios(draw):
     for i in range(src.choice([0, 0, 1, 3])):
         sc["reads"].append(S.unmapped_read("u%d" % i))
     sc["restart_with_bam"] = src.bool(0.3)
+    # an experiment with two files switches on file-name grouping and the technical-replica filter by itself
+    if not grouped and src.bool(0.3):
+        sc["nfiles"] = 2
+        for r in sc["reads"]:
+            r["file"] = src.int(0, 1)
     sc["opts"] = ["--data_type", src.choice(["nanopore", "pacbio_ccs"]), "--no_gzip", "--threads",
                   str(src.choice([1, 2]))]
     if grouped:
